@@ -223,8 +223,18 @@ impl BinRead for InstallTag {
 
         // Read bit mask
         let bit_mask_size = (entry_count as usize).div_ceil(8);
-        let mut bit_mask = vec![0u8; bit_mask_size];
-        reader.read_exact(&mut bit_mask)?;
+        // Read at most `bit_mask_size` bytes without trusting the entry count
+        // for the allocation (it comes from the header of an untrusted file).
+        let mut bit_mask = Vec::new();
+        reader
+            .by_ref()
+            .take(bit_mask_size as u64)
+            .read_to_end(&mut bit_mask)?;
+        if bit_mask.len() != bit_mask_size {
+            return Err(binrw::Error::Io(std::io::Error::from(
+                std::io::ErrorKind::UnexpectedEof,
+            )));
+        }
 
         Ok(Self {
             name,
